@@ -534,6 +534,14 @@ func (c *irCtx) callStmt(call *ast.CallExpr, lhs []ast.Expr, define bool) (strin
 			v := c.expr(call.Args[0], "")
 			d := mkDsts([]string{"int", "error"})
 			return fmt.Sprintf("(.bufWrite %s %s %s)", v, optSlot(d[0].slot, d[0].ok), optSlot(d[1].slot, d[1].ok)), true
+		case id.Name == c.buf && f.Sel.Name == "WriteByte" && len(call.Args) == 1 && c.typeOf(call.Args[0]) != "":
+			// buf.WriteByte(b): one byte appended, the error is always nil
+			v := c.expr(call.Args[0], "byte")
+			d := mkDsts([]string{"error"})
+			return fmt.Sprintf("(.bufWrite (.bytes1 %s) none %s)", v, optSlot(d[0].slot, d[0].ok)), true
+		case id.Name == c.buf && f.Sel.Name == "Grow" && len(call.Args) == 1 && lhs == nil:
+			// buf.Grow(n): capacity only (not part of the model); panics on a negative n
+			return "(.ite (.cmp .lt " + c.expr(call.Args[0], "int") + " (.int 0))\n .panicS\n .skip)", true
 		case f.Sel.Name == "Encode" && len(call.Args) == 1 && isIdent(call.Args[0], c.buf):
 			if s, found := c.lookup(id.Name); found && c.fn.tpKind[c.types[s]] == "obj" {
 				d := mkDsts([]string{"error"})
